@@ -127,4 +127,43 @@ def run(ctx, rep):
                     rep.ob("execstack", "pf_x-under-stack-and-flag", bi in tb and bool(ef.get(bi, frozenset()) & ex_true),
                            "segment_flags |= pf::EXECUTABLE only for the stack segment and only with -z execstack", b.file, t["l"])
     rep.ob("execstack", "writer-site", n == 1, f"{n} site(s) OR PF_X into segment flags")
+    # ---- merging: the fold operator per class and the emission condition ------------------------------------------------
+    import decide as _d
+    rep.rule("merge-fold", "when a property type is seen again its value is AND-ed on the PropertyClass::And edge and OR-ed otherwise")
+    rep.rule("merge-emit", "a merged property is emitted iff (Or && value != 0) || (And && present in every input && value != 0) || (AndOr && present in every input) - GNU ld drops an AND property that any input lacks")
+    cls_ = [b for b in F.all_bodies if "merge_gnu_property_notes" in b.key and b.d["kind"] == "Closure"]
+    if not cls_:
+        rep.lost("merge-fold", "closures of elf::merge_gnu_property_notes")
+    n_fold = 0
+    for c in cls_:
+        for bi, blk in enumerate(c.blocks):
+            for st in blk["s"]:
+                if st["k"] == "assign" and st["rv"]["k"] == "bin" and st["rv"]["op"] in ("BitAnd", "BitOr") and "PropertyClass" in " ".join(c.locals):
+                    at = _d.atoms_at(P, F, c, bi)
+                    vs = [v for a, v in at if a.startswith("variant:PropertyClass")]
+                    if not vs:
+                        continue
+                    n_fold += 1
+                    names = set().union(*vs)
+                    if st["rv"]["op"] == "BitAnd":
+                        rep.ob("merge-fold", "and-on-And", names == {"And"}, f"`&=` is applied for classes {sorted(names)}", c.file, st["l"])
+                    else:
+                        rep.ob("merge-fold", "or-otherwise", "And" not in names and "Or" in names, f"`|=` is applied for classes {sorted(names)}", c.file, st["l"])
+    rep.floor("merge-fold", "fold operators found", n_fold, 2)
+    emit = None
+    for c in cls_:
+        tg = {bi for bi, blk in enumerate(c.blocks) for st in blk["s"] if st["k"] == "assign" and st["rv"]["k"] == "agg" and (st["rv"].get("adt") or "").endswith("GnuProperty")}
+        if tg and "Option<libwild::elf::GnuProperty>" in c.locals[0]:
+            emit = (c, tg)
+    if emit is None:
+        rep.lost("merge-emit", "the filter_map closure that builds the merged GnuProperty")
+    else:
+        c, tg = emit
+        try:
+            paths = _d.bool_paths(P, F, c, targets=tg)
+            ok, why = _d.check_formula(paths, {"cls": "variant:", "nz": "bin:Ne(", "all": "Iterator::all("},
+                                       lambda v: (v["cls"] == "Or" and v["nz"]) or (v["cls"] == "And" and v["all"] and v["nz"]) or (v["cls"] == "AndOr" and v["all"]))
+            rep.ob("merge-emit", "truth-table", ok, f"{len(paths)} paths; {why}", c.file, c.line)
+        except _d.NotLoopFree as e:
+            rep.ob("merge-emit", "truth-table", False, str(e), c.file, c.line)
     rep.assume("which inputs carry which notes is input data; merged values are not decided")
